@@ -193,6 +193,9 @@ func genCluOp(g *rand.Rand, cfg *cluCfg, property string, i int) cluOp {
 	case x < 84:
 		op.Kind = "control"
 		op.Ctl = []string{"stop", "start", "restart"}[g.IntN(3)]
+		if g.IntN(2) == 0 {
+			op.Slots = []int{g.IntN(64), g.IntN(64)} // several workloads in one call
+		}
 	case x < 88:
 		op.Kind = "node_resource"
 		op.Fix = g.IntN(2) == 0
@@ -314,7 +317,7 @@ func (cluH) Generate(property string, seed uint64, tier string) *Case {
 				op.Kind = "rm_image"
 			}
 			if property == "C34" {
-				switch g.IntN(10) {
+				switch g.IntN(11) {
 				case 0:
 					op = cluOp{Kind: "rpc_pods"}
 				case 1:
@@ -328,6 +331,10 @@ func (cluH) Generate(property string, seed uint64, tier string) *Case {
 					op = cluOp{Kind: "remove", Slots: []int{g.IntN(64), g.IntN(64), g.IntN(64)}, Force: true}
 				case 5:
 					op = genCreate(g, &cfg, property)
+				case 7:
+					op = cluOp{Kind: "rpc_list", App: []string{"app", "web", ""}[g.IntN(3)]}
+				case 6:
+					op = cluOp{Kind: "control", Ctl: []string{"stop", "start", "restart"}[g.IntN(3)], Slots: []int{g.IntN(64), g.IntN(64), g.IntN(64)}}
 				}
 			}
 			op.Task = g.IntN(cfg.Tasks)
